@@ -50,10 +50,10 @@ def doy_of(dates):
     return np.array([d.timetuple().tm_yday for d in dates])
 
 
-def gen_pr(nprs, n, pdry, shape, scale, drizzle, at_threshold):
+def gen_pr(nprs, n, pdry, shape, scale, drizzle, at_threshold, wet_floor=0.0):
     """gamma mixture in kg m-2 s-1: exact zeros with probability `pdry`, gamma amounts otherwise, optionally some
     drizzle below every threshold and a few values exactly on the ISIMIP threshold (all valid non-negative input)"""
-    x = nprs.gamma(shape, scale, size=n)
+    x = wet_floor + nprs.gamma(shape, scale, size=n)  # wet_floor: wet days of at least 0.1 mm/day (gauge-like data)
     x[nprs.random_sample(n) < pdry] = 0.0
     if drizzle > 0:
         idx = nprs.random_sample(n) < drizzle
@@ -108,7 +108,7 @@ def gen_var(nprs, var, dates, bias):
 
 
 # ------------------------------------------------------------------ the debiasers under test (real classes, real scipy)
-def make_debiaser(name, mode, var="pr", fast=True, delta_shift="additive"):
+def make_debiaser(name, mode, var="pr", fast=True, delta_shift="additive", year_windows=None):
     """mode: 'win' (running windows; + year windows for CDFt / QDM) | 'nowin' (window-free; ISIMIP: month mode)"""
     from ibicus.debias import (CDFt, DeltaChange, ISIMIP, LinearScaling, QuantileDeltaMapping, QuantileMapping,
                                ScaledDistributionMapping)
@@ -116,7 +116,7 @@ def make_debiaser(name, mode, var="pr", fast=True, delta_shift="additive"):
     step = 31 if fast else 1
     rw = dict(running_window_mode=True, running_window_length=91, running_window_step_length=step) if mode == "win" \
         else dict(running_window_mode=False)
-    yw = dict(running_window_mode_over_years_of_cm_future=(mode == "win"))
+    yw = dict(running_window_mode_over_years_of_cm_future=((mode == "win") if year_windows is None else bool(year_windows)))
     with warnings.catch_warnings():
         warnings.simplefilter("ignore")
         if name == "LinearScaling":
@@ -260,7 +260,7 @@ def check_isimip(deb, var, out):
 
 
 # ------------------------------------------------------------------ one case (replayable from its dict)
-def gen_case(rng, name, var, mode, tier):
+def gen_case(rng, name, var, mode, tier, long_future=False):
     case = {"debiaser": name, "variable": var, "mode": mode, "case_seed": rng.randint(0, 2**31 - 2),
             "years": rng.choice([3, 4]) if tier == "quick" else rng.choice([3, 4, 5, 6]),
             "fast_windows": True if tier == "quick" else rng.random() < 0.8}
@@ -274,6 +274,14 @@ def gen_case(rng, name, var, mode, tier):
         case["at_threshold"] = rng.choice([0, 0, 3])
         if name == "CDFt":  # SSR with every delta shift (additive is the default for pr)
             case["delta_shift"] = rng.choice(["additive", "multiplicative", "no_shift"])
+        case["wet_floor"] = rng.choice([0.0, 0.0, THR_ISIMIP])
+        if long_future:
+            # a future of 12-30 years: more than one running window over years of cm_future (default 17 / 9); the second
+            # and later year windows must see the same obs / cm_hist (and the same SSR threshold) as the first
+            case["future_years"] = rng.randint(12, 30)
+            case["years"] = rng.choice([4, 6, 10])
+            case["year_windows"] = True if name == "CDFt" else rng.choice([True, True, False])
+            case["wet_floor"] = rng.choice([THR_ISIMIP, THR_ISIMIP, 0.0])
     else:
         case["bias"] = [rng.choice([-1, 0, 1]) for _ in range(3)]
         case["nan_fraction"] = rng.choice([0.0, 0.0, 0.1]) if var == "prsnratio" else 0.0
@@ -286,10 +294,12 @@ def build_inputs(case):
     y0 = 1960 + int(nprs.randint(0, 40))
     tO = dates_from(y0, n, int(nprs.randint(0, 200)))
     tH = dates_from(y0, n + int(nprs.randint(0, 30)), int(nprs.randint(0, 200)))
-    tF = dates_from(y0 + 60, n + int(nprs.randint(0, 30)), int(nprs.randint(0, 200)))
+    nF = 365 * case["future_years"] + int(nprs.randint(0, 30)) if case.get("future_years") else n + int(nprs.randint(0, 30))
+    tF = dates_from(y0 + 60, nF, int(nprs.randint(0, 200)))
     var = case["variable"]
     if var == "pr":
-        series = [gen_pr(nprs, t.size, case["pdry"][k], case["shape"][k], case["scale"][k], case["drizzle"], case["at_threshold"])
+        series = [gen_pr(nprs, t.size, case["pdry"][k], case["shape"][k], case["scale"][k], case["drizzle"], case["at_threshold"],
+                         case.get("wet_floor", 0.0))
                   for k, t in enumerate((tO, tH, tF))]
     else:
         series = [gen_var(nprs, var, t, case["bias"][k]) for k, t in enumerate((tO, tH, tF))]
@@ -304,7 +314,8 @@ def run_case(case):
     series, (tO, tH, tF) = build_inputs(case)
     o, h, f = series
     name, var, mode = case["debiaser"], case["variable"], case["mode"]
-    deb = make_debiaser(name, mode, var, fast=case.get("fast_windows", True), delta_shift=case.get("delta_shift", "additive"))
+    deb = make_debiaser(name, mode, var, fast=case.get("fast_windows", True), delta_shift=case.get("delta_shift", "additive"),
+                        year_windows=case.get("year_windows"))
     info = {}
     if var == "pr":
         thr = max(THR_ISIMIP, THR_QDM)
@@ -413,15 +424,17 @@ def run(tier, res, force_search=False):
         for var in ISIMIP_VARS:
             for mode in ("win", "nowin"):
                 plan.append(("ISIMIP", var, mode))
+        plan += [("CDFt", "pr", "nowin", True), ("CDFt", "pr", "win", True), ("QuantileDeltaMapping", "pr", "nowin", True),
+                 ("QuantileDeltaMapping", "pr", "win", True)]
     problems_all, stats, oracle_samples = [], {}, []
     budget_s = 75 if tier == "quick" else 600
-    for k, (name, var, mode) in enumerate(plan):
+    for k, (name, var, mode, *rest) in enumerate(plan):
         if time.time() - t2 > budget_s * (3 if (force_search or not lean_ok or res.tie_broken) else 1):
             res.notes.append(f"oracle stopped after {k} of {len(plan)} planned cases (time budget)")
             break
-        case = gen_case(rng, name, var, mode, tier)
+        case = gen_case(rng, name, var, mode, tier, long_future=bool(rest))
         status, problems, info = run_case(case)
-        key = f"{name}/{var}/{mode}"
+        key = f"{name}/{var}/{mode}" + ("/long-future" if rest else "")
         st = stats.setdefault(key, {"ok": 0, "outside": 0, "exception": 0, "violations": 0})
         st[status] += 1
         if status == "exception":
